@@ -150,8 +150,17 @@ def run(tier, seed):
                 idx = [ents.index(e) for e in v]
                 if [json.dumps(e, sort_keys=True) for e in v] != [json.dumps(e, sort_keys=True) for e in ents if e in v] or any(R.project_entity(e)["kind"].startswith("?") for e in v):
                     V.mismatch(dict(case, problem="bucket order differs from the flat order / entity of unknown kind", bucket=b))
+    # ---- the end-to-end composition (spec/System.tla): grouped vs flat presentation of every script of <= 3 statements
+    from .. import sys_check as SY
+    sc, ss, st, sn = SY.leg(V, tier, seed, "C13: <=3 statements, grouped and flat", [k for k in SY.ALL_KINDS if k not in ("go", "view")], MaxStmts=3,
+                            Groups=SY.bset([True, False]), cap=5000 if tier == "quick" else 40000,
+                            negative=("group_drops_markerless", "GroupLossless", {"MaxStmts": 2, "Groups": SY.bset([True])}))
+    cov_system = sc
+    states += ss
+    trans += st
     rc = V.finish()
     smp = meta[len(meta) // 2]
+    cov["system_composition"] = cov_system
     cov.update({"states": states, "transitions": trans, "traces_validated_against_impl": ncmp, "distinct_real_parses": nuniq,
                 "modes": modes, "seeds": seeds, "model_drift": {"entities_with_unexpected_marker_keys": drift},
                 "samples": [{"abstract": [s["k"] if s["k"] != "other" else s["x"] for s in smp[0]["hist"]], "ddl": smp[1],
